@@ -922,6 +922,10 @@ class String2Key(Field):
         # GNU extension smartcard
         self.scserial = None
 
+        # GNU extension: the hash algorithm octet that follows the specifier octet, as in every S2K specifier.
+        # GnuPG 2.1+ writes 0; GnuPG 1.4 / 2.0 leave the id the key was protected with (gnu-dummy ..., hash: 2)
+        self.gnuhalg = 0
+
     def __bytearray__(self):
         _bytes = bytearray()
         _bytes.append(self.usage)
@@ -947,7 +951,8 @@ class String2Key(Field):
 
     def _experimental_bytearray(self, _bytes):
         if self.specifier == String2KeyType.GNUExtension:
-            _bytes += b'\x00GNU'
+            _bytes.append(self.gnuhalg)
+            _bytes += b'GNU'
             _bytes.append(self.gnuext)
             if self.gnuext == S2KGNUExtension.Smartcard:
                 # parse() reads a length octet for every card stub, also when no serial number follows it
@@ -978,6 +983,7 @@ class String2Key(Field):
         s2k.salt = copy.copy(self.salt)
         s2k.count = self._count
         s2k.scserial = self.scserial
+        s2k.gnuhalg = self.gnuhalg
         return s2k
 
     def parse(self, packet, iv=True):
@@ -1045,8 +1051,11 @@ class String2Key(Field):
                  indicates no more than 16 octets are stored.
         """
         if self.specifier == String2KeyType.GNUExtension:
-            if packet[:4] != b'\x00GNU':
+            # octet 1 of an S2K specifier is its hash algorithm (RFC 4880 3.7.1); it has no meaning for a stub and
+            # need not be zero.  It is kept as an integer (not every id has a name here) and written back as it came
+            if packet[1:4] != b'GNU':
                 raise PGPError("Invalid S2K GNU extension magic value")
+            self.gnuhalg = packet[0]
             del packet[:4]
             self.gnuext = packet[0]
             del packet[0]
